@@ -57,6 +57,7 @@ pub fn run(cfg: &Cfg, rep: &mut Report) {
             // plan: (handler, query, kinds)
             let mut plan: Vec<(usize, bool, Vec<DKind>)> = vec![];
             let mut gave_up = false;
+            let mut indefinite_last = false;
             for u in 0..nunits {
                 let (g, h, nl) = gen_resolving_unit(rng, &rt, level, u == 0);
                 if h == usize::MAX {
@@ -82,6 +83,18 @@ pub fn run(cfg: &Cfg, rep: &mut Report) {
                     let k = any_kind(rng);
                     data.push(gen_datum(rng, k));
                 }
+                // an indefinite-length block as the very last element of the message (its payload is everything up to the
+                // terminating NL, whatever bytes that is - CR, NL, quotes, separators)
+                if n > 0 && u + 1 == nunits && rng.chance(1, 8) {
+                    let len = rng.usize(12);
+                    let mut t = b"#0".to_vec();
+                    for _ in 0..len {
+                        t.push(*rng.pick(b";,\n\r'\"ab 1#()\x00\xff\r"));
+                    }
+                    let last = data.len() - 1;
+                    data[last] = GDatum { kind: DKind::Block, text: t };
+                    indefinite_last = true;
+                }
                 if n > 0 {
                     ws1(rng, &mut msg);
                     render_data(rng, &data, &mut msg);
@@ -96,8 +109,15 @@ pub fn run(cfg: &Cfg, rep: &mut Report) {
             while gave_up && matches!(msg.last(), Some(b';') | Some(b' ') | Some(b'\t') | Some(b'\r') | Some(0x0c)) {
                 msg.pop();
             }
-            let ending = *rng.pick(&ENDINGS);
-            render_ending(rng, ending, &mut msg);
+            let mut ending = *rng.pick(&ENDINGS);
+            if indefinite_last && !gave_up {
+                // the NL that ends the block ends the message
+                msg.push(b'\n');
+                ending = Ending::Nl;
+                ctx.count("messages.ending-in-an-indefinite-block");
+            } else {
+                render_ending(rng, ending, &mut msg);
+            }
             // reference decomposition (byte ranges)
             let acc = match lex_message(&msg) {
                 Lex::Accept(a) => a,
